@@ -10,5 +10,7 @@ for p in "$@"; do
   echo "$p exit=$rc wall=${e}s $(grep -E '^\[' .build/thorough_$p.log | tail -1)" >> .build/thorough.log
   grep -E "^(VIOLATION|KNOWN-FINDING|INCONCLUSIVE|UNDECIDED|NOTE)" .build/thorough_$p.log | cut -c1-220 >> .build/thorough.log
   mkdir -p .build/evidence_thorough && cp evidence/$p.json .build/evidence_thorough/ 2>/dev/null
+  # the committed evidence is the quick tier's: put it back
+  [ -f .build/evidence_quick/$p.json ] && cp .build/evidence_quick/$p.json evidence/$p.json
 done
 echo ALLDONE >> .build/thorough.log
